@@ -317,5 +317,6 @@ pub fn arb_block() -> impl Strategy<Value = GBlock> {
 /// A service-string component: the format's implicit precondition is that it contains neither
 /// `|` nor `;` (the separators).
 pub fn arb_service_word() -> impl Strategy<Value = String> {
-    "[A-Za-z0-9 _.:/-]{0,12}"
+    // ASCII plus a few two- and three-byte characters (host names and service names are free text)
+    "[A-Za-z0-9 _.:/üé日本-]{0,12}"
 }
